@@ -699,6 +699,12 @@ func (fc *FnCtx) atCall(st *State, instr ssa.CallInstruction, name string, args 
 		for i, v := range args {
 			env.vars[fmt.Sprintf("arg%d", i)] = v
 		}
+		if cc := instr.Common(); cc != nil && !cc.IsInvoke() && staticTarget(cc.Value) == nil {
+			// dynamic call: funcval is the function value being called
+			if v, ok := fc.vals[cc.Value]; ok {
+				env.vars["funcval"] = v
+			}
+		}
 		if after {
 			for k, v := range fc.lastGhost {
 				env.vars["callee_"+k] = v
